@@ -936,8 +936,9 @@ impl Property for C01 {
         "case = one TeX program (ops `{`, `}`, local/\\global assignments to \\count \\dimen \\skip \\toks \\catcode \\mathcode \
          \\endlinechar \\globaldefs \\year \\month, \\def \\gdef \\let \\countdef \\toksdef \\chardef \\mathchardef of control sequences \
          and active characters, font selectors, reads). Order: corpus files, built-in witnesses, exhaustive (every sequence up to length \
-         4 (quick) / 5 (thorough; 6 for three pairs) over 2 targets x 2 values x {local, global} + `{` + `}` with both targets read \
-         after every op, for 13 pairs of target kinds), random programs (8..60 ops + reads, depth <= 8, a pool of 2-6 hot targets, \
+         4 (quick; 3 for the last 7 pairs) / 5 (thorough; 4 for the last 7 pairs) over 2 targets x 2 values x {local, global} + `{` + `}` \
+         with both targets read after every op, for 13 pairs of target kinds; and every sequence up to length 5 (quick) / 6 (thorough; 7 for \
+         \\count) over 1 target x 2 values x {local, global} + `{` + `}` for 6 target kinds; a `}` with no group open only as the last op), random programs (8..60 ops + reads, depth <= 8, a pool of 2-6 hot targets, \
          40-60% of assignments \\global, \\globaldefs assigned in a quarter of them). Non-trivial: an assignment inside a group is \
          followed by a read."
             .into()
@@ -992,29 +993,56 @@ impl Property for C01 {
     fn generate(&mut self, ctx: &Ctx, rng: &mut Rng) -> Vec<String> {
         let mut cases = vec![];
         // exhaustive small scope
-        let base_len = if ctx.thorough { 5 } else { 4 };
-        for (pi, (_, t1, t2, setup)) in exhaustive_pairs().into_iter().enumerate() {
-            let alpha = alphabet(t1, t2);
-            let maxlen = if ctx.thorough && pi < 3 { 6 } else { base_len };
+        let mut push_all = |alpha: &[Op], reads: &[Op], setup: bool, maxlen: usize, cases: &mut Vec<String>, count: &mut u64| {
             for len in 1..=maxlen {
-                for s in all_seqs(alpha.len(), len) {
-                    // sequences that start with `}` die at once; keep one of each length
-                    if s[0] == 1 && s.iter().skip(1).any(|&i| i != 0) {
-                        continue;
+                'seq: for s in all_seqs(alpha.len(), len) {
+                    // a `}` with no group open ends the run: keep it only as the last op
+                    let mut depth = 0i64;
+                    for (k, &i) in s.iter().enumerate() {
+                        match alpha[i] {
+                            Op::Begin => depth += 1,
+                            Op::End => {
+                                depth -= 1;
+                                if depth < 0 && k + 1 < s.len() {
+                                    continue 'seq;
+                                }
+                            }
+                            _ => {}
+                        }
                     }
                     let mut p = if setup { setup_ops() } else { vec![] };
                     for i in s {
                         p.push(alpha[i]);
-                        p.push(gt_read(t1));
-                        p.push(gt_read(t2));
+                        p.extend_from_slice(reads);
                     }
                     cases.push(enc(&p));
-                    self.exhaustive += 1;
+                    *count += 1;
                 }
             }
+        };
+        // two targets
+        for (pi, (_, t1, t2, setup)) in exhaustive_pairs().into_iter().enumerate() {
+            let alpha = alphabet(t1, t2);
+            let maxlen = match (ctx.thorough, pi < 6) {
+                (true, true) => 5,
+                (true, false) => 4,
+                (false, true) => 4,
+                (false, false) => 3,
+            };
+            push_all(&alpha, &[gt_read(t1), gt_read(t2)], setup, maxlen, &mut cases, &mut self.exhaustive);
+        }
+        // one target, deeper
+        for (ti, t) in [GT::Var(0, 1), GT::Cmd(0, 0, 0), GT::Cmd(1, 0, 0), GT::Font, GT::Var(3, 1), GT::Cmd(1, 1, 2)].into_iter().enumerate() {
+            let alpha: Vec<Op> = alphabet(t, t).into_iter().take(6).collect();
+            let maxlen = match (ctx.thorough, ti < 1) {
+                (true, true) => 7,
+                (true, false) => 6,
+                (false, _) => 5,
+            };
+            push_all(&alpha, &[gt_read(t)], false, maxlen, &mut cases, &mut self.exhaustive);
         }
         // random
-        let n = if ctx.thorough { 120_000 } else { 6_000 };
+        let n = if ctx.thorough { 150_000 } else { 6_000 };
         let mut r = rng.fork();
         for _ in 0..n {
             cases.push(enc(&random_program(&mut r)));
